@@ -2,6 +2,7 @@ package rules
 
 import (
 	"go/ast"
+	"go/token"
 	"go/types"
 	"strings"
 
@@ -19,6 +20,8 @@ func init() {
 			"the post-processing stages that establish the order (dedupe ≺ fetch ids ≺ nested dependencies on the flat tree, dependency ordering ≺ parallel grouping, defer extraction while flat, the same stage set for all three plan kinds) are wired in the required order. " +
 			"It does not decide the topological correctness of the ordering algorithms for arbitrary dependency graphs.",
 		Mutants: []Mutant{
+			{Name: "union of member dependencies stops at the first duplicate (seeded change C08-11)", File: "v2/pkg/engine/postprocess/create_multi_fetch.go", Rule: "C08-R4", Key: "merged-deps",
+				Old: "\t\t\tif _, dup := seen[dep]; dup {\n\t\t\t\tcontinue\n\t\t\t}\n\t\t\tseen[dep] = struct{}{}\n\t\t\tdeps = append(deps, dep)", New: "\t\t\tif _, dup := seen[dep]; dup {\n\t\t\t\tbreak\n\t\t\t}\n\t\t\tseen[dep] = struct{}{}\n\t\t\tdeps = append(deps, dep)"},
 			{Name: "merge phase without the data lock", File: loaderGo, Rule: "C08-R1", Key: "mergeResult",
 				Old: "func (l *Loader) mergePhase(prepared *preparedFetch) error {\n\tl.dataBuffer.Lock()\n\tdefer l.dataBuffer.Unlock()\n", New: "func (l *Loader) mergePhase(prepared *preparedFetch) error {\n"},
 			{Name: "load phase parses the response on the arena (unlocked)", File: loaderGo, Rule: "C08-R1", Key: "parsedResponse",
@@ -318,14 +321,14 @@ func runC08(r *fw.Run) {
 		})
 		r.Expect("C08-R3", "plan-kind arms of Processor.Process", arms, 3)
 	}
-	mergedDependencies(r)
+	mergedDependencies(r, "C08-R4")
 }
 
 // mergedDependencies: the fetch that replaces a group of fetches depends on everything any
 // member depended on (C08-R4).
-func mergedDependencies(r *fw.Run) {
+func mergedDependencies(r *fw.Run, rule string) {
 	p := r.Prog
-	r.Rule("C08-R4", "a fetch created by merging several fetches carries the union of the members' dependencies: its DependsOnFetchIDs derive from the whole member list, not from one fixed member")
+	r.Rule(rule, "a fetch created by merging several fetches carries the union of the members' dependencies: its DependsOnFetchIDs derive from the whole member list, not from one fixed member")
 	n := 0
 	for _, fi := range p.Funcs("postprocess") {
 		info := fi.Info()
@@ -371,20 +374,20 @@ func mergedDependencies(r *fw.Run) {
 						okUnion = helperUnionsDependencies(hf)
 					}
 				}
-				r.Check(okUnion, "C08-R4", fi.Name()+"/merged-deps-are-a-union", p.Pos(kv.Pos()), "DependsOnFetchIDs of the merged fetch in "+fi.Name()+" derives from all members",
-					"the merged fetch inherits the dependencies of one fixed member only: the scheduler loses the edge to another member's prerequisite and issues the merged request before that prerequisite was merged")
+				r.Check(okUnion, rule, fi.Name()+"/merged-deps-are-a-union", p.Pos(kv.Pos()), "DependsOnFetchIDs of the merged fetch in "+fi.Name()+" derives from all members",
+					"the merged fetch inherits the dependencies of one fixed member only, or the loop that unions them can be left early (break/return): the scheduler loses the edge to another member's prerequisite and issues the merged request before that prerequisite was merged")
 			}
 			return true
 		})
 	}
-	r.Expect("C08-R4", "merged FetchDependencies literals", n, 1)
+	r.Expect(rule, "merged FetchDependencies literals", n, 1)
 }
 
 // helperUnionsDependencies: the function ranges over a slice parameter of fetches and reads each
 // element's DependsOnFetchIDs into its result.
 func helperUnionsDependencies(fi *fw.FuncInfo) bool {
 	info := fi.Info()
-	ok := false
+	ok, early := false, false
 	fw.WalkAll(fi.Decl.Body, func(n ast.Node) bool {
 		rs, isRange := n.(*ast.RangeStmt)
 		if !isRange {
@@ -409,9 +412,57 @@ func helperUnionsDependencies(fi *fw.FuncInfo) bool {
 			}
 			return true
 		})
+		// a union visits every member and every dependency: the loop over the members and the loops nested in it
+		// are never left early (break, return, goto) — a `continue` only skips one element
+		fw.WalkAll(rs.Body, func(m ast.Node) bool {
+			switch x := m.(type) {
+			case *ast.FuncLit:
+				return false
+			case *ast.ReturnStmt:
+				early = true
+			case *ast.BranchStmt:
+				if x.Tok == token.BREAK || x.Tok == token.GOTO {
+					// a break inside a switch/select arm only leaves the switch — none is used here; be strict and
+					// accept it only when the innermost breakable statement is a switch/select
+					if !breakLeavesSwitchOnly(rs.Body, x) {
+						early = true
+					}
+				}
+			}
+			return true
+		})
 		return true
 	})
-	return ok
+	return ok && !early
+}
+
+// breakLeavesSwitchOnly: the unlabelled break br inside root belongs to a switch/select statement (not to a loop).
+func breakLeavesSwitchOnly(root ast.Node, br *ast.BranchStmt) bool {
+	if br.Label != nil || br.Tok != token.BREAK {
+		return false
+	}
+	res := false
+	var stack []ast.Node
+	ast.Inspect(root, func(n ast.Node) bool {
+		if n == nil {
+			stack = stack[:len(stack)-1]
+			return true
+		}
+		if n == ast.Node(br) {
+			for i := len(stack) - 1; i >= 0; i-- {
+				switch stack[i].(type) {
+				case *ast.SwitchStmt, *ast.TypeSwitchStmt, *ast.SelectStmt:
+					res = true
+					return false
+				case *ast.ForStmt, *ast.RangeStmt:
+					return false
+				}
+			}
+		}
+		stack = append(stack, n)
+		return true
+	})
+	return res
 }
 
 func contains(xs []string, s string) bool {
